@@ -9,7 +9,6 @@ Streams
   class-vs-definition        real class after many updates vs the SPEC model applied to all data seen so far
                              (the property's last sentence); known defects are attributed precisely
 """
-import contextlib
 from fractions import Fraction
 from .. import core, history, streams
 from ..compare import close
@@ -19,30 +18,10 @@ from ..families import ranking as R
 LEVEL_NOTE = ("ranking/retrieval: theorems over exact models (scores on an integer grid; retrieval statements under the "
               "property's proviso 'scores without ties': torch.topk's order among equal scores is unspecified and the "
               "generators keep retrieval scores pairwise distinct); models tied by state-level history correspondence "
-              "(merge arguments as list/tuple; the generator form is C01's D18) and functional correspondence")
+              "(merge arguments as list/tuple/generator) and functional correspondence")
 
 F_D3 = "C08-retrieval-recall-retained-denominator"
 F_D4 = "C08-retrieval-empty-target-after-pruning"
-
-
-@contextlib.contextmanager
-def restricted_merge_forms():
-    """history.gen_history chooses list/tuple/generator merge arguments; entries that declare
-    `merge_forms` get only those (RetrievalPrecision/Recall.merge_state iterate a generator twice:
-    that defect belongs to C01 and is reported there)."""
-    orig = history.gen_history
-
-    def gen(rng, e, cfg, **kw):
-        ops = orig(rng, e, cfg, **kw)
-        forms = getattr(e, "merge_forms", None)
-        if forms:
-            ops = [(o[0], o[1], o[2], o[3] if o[3] in forms else "list") if o[0] == "merge" else o for o in ops]
-        return ops
-    history.gen_history = gen
-    try:
-        yield
-    finally:
-        history.gen_history = orig
 
 
 # ---------------------------------------------------------------------------------------------
@@ -62,10 +41,13 @@ def spec_case(e, cfg, batches):
     return (e.class_spec_model, [e.cfg_val(cfg), e.all_samples_val(cfg, batches)])
 
 
-def norm_spec(e, cfg, v):
-    # ClickThroughRate / WeightedCalibration: the class keeps the leading num_tasks dimension
-    if e.name in ("ClickThroughRate", "WeightedCalibration") and cfg["num_tasks"] == 1 and not isinstance(v, list):
-        return [v]
+def norm_spec(e, cfg, batches, v):
+    # WeightedCalibration: when NOTHING was accumulated (every task's weighted input and target sums
+    # are 0) the class returns an empty tensor; otherwise per-task IEEE quotients like the functional
+    if e.name == "WeightedCalibration":
+        c = e.concat(cfg, batches)
+        if all(sum(w * y for w, y in zip(c["ws"][i], c[f][i])) == 0 for i in range(cfg["num_tasks"]) for f in ("x", "y")):
+            return []
     return v
 
 
@@ -139,12 +121,11 @@ def class_vs_definition(ctx):
     bad, reported = {}, set()
     for (e, cfg, batches, expect), spec in zip(work, outs):
         impl = impl_class(e, cfg, batches)
-        spec = norm_spec(e, cfg, spec)
-        undefined = e.name == "WeightedCalibration" and not e.defined(cfg, batches)
+        spec = norm_spec(e, cfg, batches, spec)
         if isinstance(spec, T) and isinstance(impl, T) and spec.tag == impl.tag == "err":
             d = None
         else:
-            d = None if undefined else close(spec, impl, e.tol)
+            d = close(spec, impl, e.tol)
         s.case((e.name, repr(cfg), repr(batches)), len(batches) >= 2,
                sample={"class": e.name, "cfg": cfg, "batches": len(batches), "samples": sum(e.size(b) for b in batches)})
         s.count("class:" + e.name)
@@ -173,7 +154,6 @@ def class_vs_definition(ctx):
 
 
 def run(ctx):
-    with restricted_merge_forms():
-        streams.hist_corr(ctx, ents=R.ENTRIES)
+    streams.hist_corr(ctx, ents=R.ENTRIES)
     streams.fn_corr(ctx, ents=[e for e in R.ENTRIES if e.fn_model] + R.FN_ENTRIES)
     class_vs_definition(ctx)
